@@ -480,6 +480,11 @@ class DiameterAVP(object):
             except KeyError as e:
                 avps.append(avp)
 
+            except RecursionError:
+                #: Grouped AVPs nested deeper than the interpreter can follow.
+                raise AVPParsingError("invalid bytes stream. Grouped AVPs "\
+                                      "are nested too deeply")
+
         return avps
 
 
